@@ -77,8 +77,24 @@ struct Model {
 
 impl Model {
     fn new(ac: &AssocCfg) -> Model {
-        let (d, i, e) = (ac.disable_unsol.iter().any(|x| *x), ac.startup_integrity.iter().any(|x| *x), ac.enable_unsol.iter().any(|x| *x));
-        Model { cfg_dis: d, cfg_int: i, cfg_ts: ac.auto_time_sync.is_some(), cfg_en: e, cr: false, dis: d, int: i, ts: false, en: e, gate_done: false, restart_seen: false }
+        let (d, i, e) = (
+            ac.disable_unsol.iter().any(|x| *x),
+            ac.startup_integrity.iter().any(|x| *x),
+            ac.enable_unsol.iter().any(|x| *x),
+        );
+        Model {
+            cfg_dis: d,
+            cfg_int: i,
+            cfg_ts: ac.auto_time_sync.is_some(),
+            cfg_en: e,
+            cr: false,
+            dis: d,
+            int: i,
+            ts: false,
+            en: e,
+            gate_done: false,
+            restart_seen: false,
+        }
     }
     fn reconnect(&mut self) {
         self.cr = false;
@@ -175,21 +191,46 @@ async fn scenario(a: &ShardArgs, idx: u64) {
     let mut ac = AssocCfg::quiet(OUT);
     ac.response_timeout_ms = *r.pick(&[100u64, 500]);
     let t_r = ac.response_timeout_ms;
-    ac.disable_unsol = if r.chance(3, 4) { [true, r.bool(), r.bool()] } else { [false; 3] };
-    ac.enable_unsol = if r.chance(3, 4) { [r.bool(), true, r.bool()] } else { [false; 3] };
-    ac.startup_integrity = if r.chance(4, 5) { [true, r.bool(), r.bool(), r.bool()] } else { [false; 4] };
+    ac.disable_unsol = if r.chance(3, 4) {
+        [true, r.bool(), r.bool()]
+    } else {
+        [false; 3]
+    };
+    ac.enable_unsol = if r.chance(3, 4) {
+        [r.bool(), true, r.bool()]
+    } else {
+        [false; 3]
+    };
+    ac.startup_integrity = if r.chance(4, 5) {
+        [true, r.bool(), r.bool(), r.bool()]
+    } else {
+        [false; 4]
+    };
     ac.auto_time_sync = *r.pick(&[None, None, Some(0u8), Some(1), Some(2)]);
     ac.retry_min_ms = *r.pick(&[100u64, 1000]);
     ac.retry_max_ms = ac.retry_min_ms * *r.pick(&[1u64, 3, 5, 8, 10]);
-    ac.keep_alive_ms = if r.chance(1, 4) { Some(*r.pick(&[700u64, 3000])) } else { None };
+    ac.keep_alive_ms = if r.chance(1, 4) {
+        Some(*r.pick(&[700u64, 3000]))
+    } else {
+        None
+    };
     ac.integrity_on_overflow = r.bool();
-    ac.event_scan = if r.chance(1, 3) { [true, r.bool(), false] } else { [false; 3] };
+    ac.event_scan = if r.chance(1, 3) {
+        [true, r.bool(), false]
+    } else {
+        [false; 3]
+    };
     let has_poll = r.chance(1, 2);
     let mut sim = MasterSim::start(mc, &[ac.clone()]).await;
     if has_poll {
         let mut h = sim.assocs[0].1.clone();
         let var = crate::app::Variation::Group30Var0;
-        let _ = h.add_poll(crate::master::ReadRequest::all_objects(var), std::time::Duration::from_millis(1000)).await;
+        let _ = h
+            .add_poll(
+                crate::master::ReadRequest::all_objects(var),
+                std::time::Duration::from_millis(1000),
+            )
+            .await;
         settle().await;
     }
     let mut hist: Vec<String> = vec![format!("{ac:?} poll={has_poll}")];
@@ -215,15 +256,40 @@ async fn scenario(a: &ShardArgs, idx: u64) {
         6 if ac.auto_time_sync.is_some() => Some((first_ts.clone(), FailMode::Silent)),
         _ => None,
     };
-    let mut fail_left: u32 = if fail.is_some() { r.range(1, 7) as u32 } else { 0 };
+    let mut fail_left: u32 = if fail.is_some() {
+        r.range(1, 7) as u32
+    } else {
+        0
+    };
     let fail_total = fail_left;
     let mut restart_bit = r.chance(1, 2) || matches!(fail, Some((Kind::ClearRestart, _))); // the outstation reports IIN1.7 until it is cleared
-    let restart_later_at: Option<usize> = if r.chance(1, 3) { Some(r.range(2, 8) as usize) } else { None };
-    let mut need_time = ac.auto_time_sync.is_some() && (r.chance(1, 2) || matches!(fail, Some((Kind::TimeSync(_), _))));
-    let need_time_later_at: Option<usize> = if ac.auto_time_sync.is_some() && r.chance(1, 4) { Some(r.range(2, 8) as usize) } else { None };
-    let overflow_at: Option<usize> = if r.chance(1, 5) { Some(r.range(1, 8) as usize) } else { None };
-    let class_bits_at: Option<usize> = if r.chance(1, 4) { Some(r.range(0, 8) as usize) } else { None };
-    let reconnect_at: Option<usize> = if r.chance(1, 4) { Some(r.range(1, 6) as usize) } else { None };
+    let restart_later_at: Option<usize> = if r.chance(1, 3) {
+        Some(r.range(2, 8) as usize)
+    } else {
+        None
+    };
+    let mut need_time = ac.auto_time_sync.is_some()
+        && (r.chance(1, 2) || matches!(fail, Some((Kind::TimeSync(_), _))));
+    let need_time_later_at: Option<usize> = if ac.auto_time_sync.is_some() && r.chance(1, 4) {
+        Some(r.range(2, 8) as usize)
+    } else {
+        None
+    };
+    let overflow_at: Option<usize> = if r.chance(1, 5) {
+        Some(r.range(1, 8) as usize)
+    } else {
+        None
+    };
+    let class_bits_at: Option<usize> = if r.chance(1, 4) {
+        Some(r.range(0, 8) as usize)
+    } else {
+        None
+    };
+    let reconnect_at: Option<usize> = if r.chance(1, 4) {
+        Some(r.range(1, 6) as usize)
+    } else {
+        None
+    };
     let mut unsol_at: Vec<usize> = vec![];
     for _ in 0..r.below(4) {
         unsol_at.push(r.range(0, 8) as usize);
@@ -232,7 +298,8 @@ async fn scenario(a: &ShardArgs, idx: u64) {
     let mut answered_count = 0usize;
     let mut reconnected = false;
     let mut last_activity = 0u64;
-    let mut queue: std::collections::VecDeque<(u64, Option<Vec<u8>>, Option<&'static str>, bool)> = Default::default();
+    let mut queue: std::collections::VecDeque<(u64, Option<Vec<u8>>, Option<&'static str>, bool)> =
+        Default::default();
     let mut unsol_confirms: Vec<u8> = vec![];
     let idle_limit = t_r + ac.retry_max_ms + 1200;
     let mut violations: Vec<(String, String, String)> = vec![];
@@ -247,12 +314,25 @@ async fn scenario(a: &ShardArgs, idx: u64) {
                                 unsol_confirms.push(bytes[0] & 15);
                             }
                         } else {
-                            queue.push_back((t_ms, Some(bytes), model.expected(), model.restart_seen));
+                            queue.push_back((
+                                t_ms,
+                                Some(bytes),
+                                model.expected(),
+                                model.restart_seen,
+                            ));
                         }
                     }
-                    Rx::Link { t_ms, frame, .. } if frame.ctrl & 0x4F == rl::F_REQUEST_LINK_STATUS => queue.push_back((t_ms, None, model.expected(), model.restart_seen)),
+                    Rx::Link { t_ms, frame, .. }
+                        if frame.ctrl & 0x4F == rl::F_REQUEST_LINK_STATUS =>
+                    {
+                        queue.push_back((t_ms, None, model.expected(), model.restart_seen))
+                    }
                     Rx::Link { .. } => {}
-                    Rx::Garbage { why, bytes, .. } => violations.push(("wire".into(), "garbage".into(), format!("master wrote garbage: {why} {}", hex(&bytes)))),
+                    Rx::Garbage { why, bytes, .. } => violations.push((
+                        "wire".into(),
+                        "garbage".into(),
+                        format!("master wrote garbage: {why} {}", hex(&bytes)),
+                    )),
                 }
             }
         };
@@ -304,7 +384,8 @@ async fn scenario(a: &ShardArgs, idx: u64) {
     let mut finished = false;
     while log.len() < 70 {
         pull!();
-        if model.expected().is_none() && answered_count >= 13 && fail_left == 0 && queue.is_empty() {
+        if model.expected().is_none() && answered_count >= 13 && fail_left == 0 && queue.is_empty()
+        {
             finished = true;
             break;
         }
@@ -322,12 +403,24 @@ async fn scenario(a: &ShardArgs, idx: u64) {
         };
         // ---- the ordering rule: while a start-up / restart step is owed, the next request is that step
         if let Some(exp) = expected {
-            let cont = matches!(kind, Kind::TimeSync(_)) && matches!(log.last().map(|l| &l.kind), Some(Kind::TimeSync(_)));
+            let cont = matches!(kind, Kind::TimeSync(_))
+                && matches!(log.last().map(|l| &l.kind), Some(Kind::TimeSync(_)));
             if kind_name(&kind) != exp && !cont {
-                let rule = if after_restart { "M2_restart_sequence" } else { "M1_order" };
+                let rule = if after_restart {
+                    "M2_restart_sequence"
+                } else {
+                    "M1_order"
+                };
                 violations.push((rule.into(), format!("{}-while-{}-owed", kind_name(&kind), exp), format!("t={t}: master sent {kind:?} while the next owed step is {exp} (model {model:?})")));
             } else {
-                out::count(if after_restart { "M2_step_in_order_ok" } else { "M1_step_in_order_ok" }, 1);
+                out::count(
+                    if after_restart {
+                        "M2_step_in_order_ok"
+                    } else {
+                        "M1_step_in_order_ok"
+                    },
+                    1,
+                );
             }
         } else if matches!(kind, Kind::Poll | Kind::LinkStatus | Kind::EventScan) {
             out::count("poll_after_startup_ok", 1);
@@ -335,7 +428,12 @@ async fn scenario(a: &ShardArgs, idx: u64) {
             violations.push(("M1_unexpected_request".into(), kind_name(&kind).into(), format!("t={t}: master sent {kind:?} although no start-up step is owed (model {model:?})")));
         }
         let Some(rq) = frag else {
-            log.push(Req { t, kind: Kind::LinkStatus, epoch: sim.epoch, failed_at: None });
+            log.push(Req {
+                t,
+                kind: Kind::LinkStatus,
+                epoch: sim.epoch,
+                failed_at: None,
+            });
             hist.push(format!("t={t} -> LINK STATUS REQUEST"));
             sim.send_link(OUT, rl::F_LINK_STATUS);
             settle().await;
@@ -345,7 +443,12 @@ async fn scenario(a: &ShardArgs, idx: u64) {
         if let Some((fk, mode)) = &fail {
             if *fk == kind && fail_left > 0 && *mode == FailMode::Silent {
                 fail_left -= 1;
-                log.push(Req { t, kind: kind.clone(), epoch: sim.epoch, failed_at: Some(t + t_r) });
+                log.push(Req {
+                    t,
+                    kind: kind.clone(),
+                    epoch: sim.epoch,
+                    failed_at: Some(t + t_r),
+                });
                 hist.push(format!("t={t} -> {kind:?} seq={seq} (not answered)"));
                 match r.below(5) {
                     0 => inject_unsol!("awaiting_reply"),
@@ -387,11 +490,28 @@ async fn scenario(a: &ShardArgs, idx: u64) {
         if matches!(kind, Kind::TimeSync(2)) {
             need_time = false;
         }
-        let class_bits = if class_bits_at.map(|p| answered_count >= p && answered_count < p + 2).unwrap_or(false) { ra::IIN1_CLASS1 } else { 0 };
-        let iin1 = (if restart_bit { ra::IIN1_RESTART } else { 0 }) | (if need_time { ra::IIN1_NEED_TIME } else { 0 }) | class_bits;
-        let iin2 = if overflow_at == Some(answered_count) { ra::IIN2_OVERFLOW } else { 0 };
+        let class_bits = if class_bits_at
+            .map(|p| answered_count >= p && answered_count < p + 2)
+            .unwrap_or(false)
+        {
+            ra::IIN1_CLASS1
+        } else {
+            0
+        };
+        let iin1 = (if restart_bit { ra::IIN1_RESTART } else { 0 })
+            | (if need_time { ra::IIN1_NEED_TIME } else { 0 })
+            | class_bits;
+        let iin2 = if overflow_at == Some(answered_count) {
+            ra::IIN2_OVERFLOW
+        } else {
+            0
+        };
         let mut body: Vec<u8> = match kind {
-            Kind::Integrity | Kind::Poll | Kind::EventScan => ra::B { bytes: vec![] }.range8(30, 1, 0, 0, &[1, 9, 0, 0, 0]).bytes,
+            Kind::Integrity | Kind::Poll | Kind::EventScan => {
+                ra::B { bytes: vec![] }
+                    .range8(30, 1, 0, 0, &[1, 9, 0, 0, 0])
+                    .bytes
+            }
             Kind::TimeSync(1) => ra::B { bytes: vec![] }.count8(52, 2, 1, &[0, 0]).bytes,
             _ => vec![],
         };
@@ -408,7 +528,11 @@ async fn scenario(a: &ShardArgs, idx: u64) {
             if *fk == kind && fail_left > 0 {
                 fail_left -= 1;
                 rejected = true;
-                iin2 |= *r.pick(&[ra::IIN2_NO_FUNC, ra::IIN2_PARAM_ERROR, ra::IIN2_OBJECT_UNKNOWN]);
+                iin2 |= *r.pick(&[
+                    ra::IIN2_NO_FUNC,
+                    ra::IIN2_PARAM_ERROR,
+                    ra::IIN2_OBJECT_UNKNOWN,
+                ]);
                 body = vec![];
                 // a rejected READ is a failed integrity poll (retried with back-off); a rejected DISABLE / ENABLE / clear-restart
                 // is a final answer for this library (it warns and moves on) - the property constrains the delays of retries, not their existence
@@ -421,12 +545,29 @@ async fn scenario(a: &ShardArgs, idx: u64) {
         }
         let iin1 = (if restart_bit { ra::IIN1_RESTART } else { 0 }) | (iin1 & !ra::IIN1_RESTART);
         let now = sim.now();
-        sim.send_from(OUT, &ra::B::response(ra::FIR | ra::FIN | seq, false, iin1, iin2).raw(&body).done());
+        sim.send_from(
+            OUT,
+            &ra::B::response(ra::FIR | ra::FIN | seq, false, iin1, iin2)
+                .raw(&body)
+                .done(),
+        );
         if rejected {
             out::count("rejected_by_iin2_replies", 1);
         }
-        hist.push(format!("t={t} -> {kind:?} seq={seq} ; t={now} reply iin={iin1:02x}{iin2:02x}{}", if failing_reply { " (failing reply)" } else { "" }));
-        log.push(Req { t, kind: kind.clone(), epoch: sim.epoch, failed_at: if failing_reply { Some(now) } else { None } });
+        hist.push(format!(
+            "t={t} -> {kind:?} seq={seq} ; t={now} reply iin={iin1:02x}{iin2:02x}{}",
+            if failing_reply {
+                " (failing reply)"
+            } else {
+                ""
+            }
+        ));
+        log.push(Req {
+            t,
+            kind: kind.clone(),
+            epoch: sim.epoch,
+            failed_at: if failing_reply { Some(now) } else { None },
+        });
         answered_count += 1;
         model.on_iin(Some(&kind), iin1, iin2, ac.integrity_on_overflow);
         if !failing_reply || kind == Kind::ClearRestart {
@@ -461,7 +602,12 @@ async fn scenario(a: &ShardArgs, idx: u64) {
         let mut epochs: Vec<u32> = log.iter().map(|x| x.epoch).collect();
         epochs.dedup();
         for ep in epochs {
-            let idxs: Vec<usize> = log.iter().enumerate().filter(|(_, x)| x.epoch == ep && x.kind == *fk).map(|(i, _)| i).collect();
+            let idxs: Vec<usize> = log
+                .iter()
+                .enumerate()
+                .filter(|(_, x)| x.epoch == ep && x.kind == *fk)
+                .map(|(i, _)| i)
+                .collect();
             let mut d = ac.retry_min_ms;
             for w in idxs.windows(2) {
                 let (x, y) = (&log[w[0]], &log[w[1]]);
@@ -493,13 +639,51 @@ async fn scenario(a: &ShardArgs, idx: u64) {
             P,
             &format!("C17.{rule}"),
             sig,
-            J::obj(vec![("why", J::s(why.clone())), ("history", J::arr(hist.iter().cloned()))]),
-            J::obj(vec![("check", J::s("c17")), ("seed", J::U(a.seed)), ("shard", J::U(a.shard)), ("nshards", J::U(a.nshards)), ("scenario", J::U(idx))]),
+            J::obj(vec![
+                ("why", J::s(why.clone())),
+                ("history", J::arr(hist.iter().cloned())),
+            ]),
+            J::obj(vec![
+                ("check", J::s("c17")),
+                ("seed", J::U(a.seed)),
+                ("shard", J::U(a.shard)),
+                ("nshards", J::U(a.nshards)),
+                ("scenario", J::U(idx)),
+            ]),
         );
     }
-    out::distinct(&format!("dis{}int{}en{}ts{:?}/fail{:?}x{}/restart{:?}/recon{:?}/poll{}", model.cfg_dis as u8, model.cfg_int as u8, model.cfg_en as u8, ac.auto_time_sync, fail, fail_total.min(3), restart_later_at.map(|x| x.min(3)), reconnect_at.map(|x| x.min(3)), has_poll));
+    out::distinct(&format!(
+        "dis{}int{}en{}ts{:?}/fail{:?}x{}/restart{:?}/recon{:?}/poll{}",
+        model.cfg_dis as u8,
+        model.cfg_int as u8,
+        model.cfg_en as u8,
+        ac.auto_time_sync,
+        fail,
+        fail_total.min(3),
+        restart_later_at.map(|x| x.min(3)),
+        reconnect_at.map(|x| x.min(3)),
+        has_poll
+    ));
     for p in crate::verif::util::take_panics() {
-        out::violation(P, "C17.panic", &crate::verif::util::norm_location(&p.location), J::obj(vec![("why", J::s(format!("panic {} at {}", p.message, p.location))), ("history", J::arr(hist.iter().cloned()))]), J::obj(vec![("check", J::s("c17")), ("seed", J::U(a.seed)), ("shard", J::U(a.shard)), ("nshards", J::U(a.nshards)), ("scenario", J::U(idx))]));
+        out::violation(
+            P,
+            "C17.panic",
+            &crate::verif::util::norm_location(&p.location),
+            J::obj(vec![
+                (
+                    "why",
+                    J::s(format!("panic {} at {}", p.message, p.location)),
+                ),
+                ("history", J::arr(hist.iter().cloned())),
+            ]),
+            J::obj(vec![
+                ("check", J::s("c17")),
+                ("seed", J::U(a.seed)),
+                ("shard", J::U(a.shard)),
+                ("nshards", J::U(a.nshards)),
+                ("scenario", J::U(idx)),
+            ]),
+        );
     }
     if a.replay.is_some() {
         for h in &hist {
@@ -512,7 +696,10 @@ async fn scenario(a: &ShardArgs, idx: u64) {
 }
 
 pub fn run(a: &ShardArgs) -> Result<(), String> {
-    let only: Option<u64> = a.replay.as_ref().and_then(|p| super::common::replay_scenario(p));
+    let only: Option<u64> = a
+        .replay
+        .as_ref()
+        .and_then(|p| super::common::replay_scenario(p));
     let n = a.n(16000);
     for idx in 0..n {
         if idx % a.nshards != a.shard {
